@@ -452,5 +452,6 @@ def finish(pid, tier, seed, t0, states, trans, mcs, mutant_res, violations, know
     if extra.get("other_leg"):
         for k in ("states", "transitions", "traces_validated_against_impl", "evaluations", "distinct_nontrivial"):
             cov[k] = cov.get(k, 0) + int(extra["other_leg"].get(k, 0))
-    C.write_evidence(pid, tier, seed, lvl, cov, time.time() - t0, ASSUME, violations=len(violations))
+    C.write_evidence(pid, tier, seed, lvl, cov, time.time() - t0, ASSUME,
+                     violations=len(violations) + int((extra.get("other_leg") or {}).get("leg_violations", 0)))
     return 1 if violations else 0
